@@ -56,7 +56,7 @@ C10_TEXT = ('Theorem C10_limit_after_successful_writes: for every configuration 
 TILING = ('Coq proof: tiling invariant sink = chunk[0..remaining_content_start) through lexer, tag scanner, bookmark hand-offs, dispatcher and stream '
           '(proofs/Tiling.v, generic in the table) + side conditions decided by vm_compute on the regenerated table (proofs/TableFacts.v); extraction-based correspondence run')
 PROPS = {
-    'C01': dict(coq=['props/C01.vo'], families=[('l1', 1200, 30000), ('l2match', 600, 15000), ('grp-l1', 400, 8000)], projections=['out_bytes'], oracle=oracle_c01,
+    'C01': dict(coq=['props/C01.vo'], families=[('l1', 1200, 30000), ('l2match', 600, 15000), ('grp-l1', 400, 8000), ('utf8', 400, 8000)], projections=['out_bytes'], oracle=oracle_c01,
         technique=TILING,
         level_text='Theorem C01_pass_through: for EVERY observer transform controller (arbitrary capture-flag policy at every tag = every set of observing handlers and every '
                    'lexer/scanner switching pattern), configuration (strict or not, any limits), byte string and split into writes: if all calls succeed, sink bytes = bytes written; '
